@@ -3,12 +3,12 @@ CONSTANTS
   NB = 5
   REQQ = 0
   DEFOUT = 3
-  MAXOUT = 2
+  MAXOUT = 50
   FAST = TRUE
   STRICT = TRUE
   REQUEUE = FALSE
-  HOSTILE = FALSE
-  GUARD = FALSE
+  HOSTILE = TRUE
+  GUARD = TRUE
 INVARIANT PipelineBound
 INVARIANT WireBound
 INVARIANT NoDoubleOpen
